@@ -549,7 +549,7 @@ func (sc *scen) modifyEdges() bool {
 		}
 		bid := sc.lastBidId(id)
 		for _, m := range c.mods {
-			if m.diff0 && !g.cfg.app && g.chance(0.4) {
+			if m.diff0 && !g.cfg.app && len(g.e.pendHooks) == 0 && g.chance(0.4) {
 				sc.do(fmt.Sprintf("failhook BeforeBidModified %d", g.intn(3)))
 			}
 			sc.modify(c.u, id, bid, m.price, c.denom, bi(m.amt))
